@@ -2,17 +2,21 @@
 import vlib
 from vlib import hx
 
-RULE = ("histories of submit / exchange (issued, used, never-issued, not-yet-issued) / sweep / delete-by-booking / clock moves "
+RULE = ("TRANSLATOR TIE: internal/ttlcode/ttlcode.go is translated to Lean on every run (Relay/Extracted/GenTtlcode.lean) and proved to refine to "
+        "the code-store model method by method for all reachable states, arguments, injective code namings and map iteration orders "
+        "(Relay/Tie/TtlCode.lean); mode genttlcode runs the translated code itself against the real store. CORRESPONDENCE (mode ttlcode): histories of submit / exchange (issued, used, never-issued, not-yet-issued) / sweep / delete-by-booking / clock moves "
         "(forwards past the TTL boundary, and backwards) / concurrent race blocks (2..16 goroutines exchanging one code) over <=4 "
         "booking ids, ttl in {30,45}; non-trivial = contains a successful exchange AND (a refused re-exchange or an expiry refusal "
         "or a purge refusal or a race block); distinct = distinct op sequence")
-ASSUMPTIONS = ["uuid.New() is collision-free and unguessable (crypto/rand): checked only as a test (v4 format, pairwise distinct)",
+ASSUMPTIONS = ["translator vocabulary (Relay/Base/GoLite.lean): int64 as unbounded Int (now + ttl does not overflow), pointer receiver as threaded value, mutex calls not data", "uuid.New() is collision-free and unguessable (crypto/rand): checked only as a test (v4 format, pairwise distinct)",
                "each CodeStore method is one atomic step (store mutex; C12)",
                "the periodic sweeper is the operation `clean` allowed at any time (theorems do not depend on the 2xTTL timer)"]
 P = "Relay.Props.C02"
 THEOREMS = [(f"TtlCode.{n}", P) for n in
             ["exchange_at_most_once", "exchange_concurrent_at_most_once", "expired_step_invalid", "expired_admits_none",
-             "purge_kills", "code_frame_exchange", "code_frame_clean", "code_frame_submit", "codes_distinct", "successes_le_one"]]
+             "purge_kills", "code_frame_exchange", "code_frame_clean", "code_frame_submit", "codes_distinct", "successes_le_one"]] + \
+           [(f"TieTtlCode.{n}", "Relay.Tie.TtlCode") for n in
+            ["submit_tie", "exchange_tie", "exchange_unknown", "clean_tie", "deleteByBooking_tie", "count_tie", "good_after", "coverage"]]
 BIDS = ["b1", "b2", "b3", ""]
 
 
@@ -111,5 +115,15 @@ class TtlMode(vlib.Mode):
         return res
 
 
+class GenTtlMode(TtlMode):
+    """the same histories; the model side is the Lean TRANSLATION of ttlcode.go (not the hand model)"""
+    name = "genttlcode"
+    impl_mode = "ttlcode"
+    model_mode = "genttlcode"
+
+    def corpus(self):
+        return TtlMode().corpus()
+
+
 def modes(tier):
-    return [TtlMode()]
+    return [TtlMode(), GenTtlMode()]
